@@ -17,6 +17,10 @@ import (
 
 const exchangeTimeout = 5 * time.Second
 
+// MaxStoredCookies is the number of cookies a client keeps at most (RFC 8915,
+// section 5.7); an NTS request asks for as many cookies as are missing.
+const MaxStoredCookies = 8
+
 // MaxCookieLen is the size of the largest cookie that still fits into an NTS
 // request together with seven placeholders of the same size.
 const MaxCookieLen = 132
@@ -165,6 +169,11 @@ func (f *Fetcher) StoreCookie(cookie []byte) {
 		// the keys the cookie belongs to are gone (a failed exchange in
 		// between): a cookie without keys cannot be used, and a pool that is
 		// not empty would keep the next request from exchanging keys
+		return
+	}
+	if len(f.data.Cookie) >= MaxStoredCookies {
+		// a response may carry any number of cookies, asked for or not: the
+		// pool must not grow with every response
 		return
 	}
 	f.data.Cookie = append(f.data.Cookie, cookie)
